@@ -156,6 +156,8 @@ def check_comparisons(acc, kind, u, v, x):
     if x != 0:
         for rel in (1e-6, -1e-6, 0.5, -0.5):
             variants.append(('differ', rel, si.convert(x * (1 + rel), kind, u, v)))
+        if c is None:
+            variants.append(('differ', 'opposite sign', si.convert(-x, kind, u, v)))
     a = K(x, u)
     sa = si.si_exact(x, kind, u)
     for cls, k, y in variants:
